@@ -218,6 +218,37 @@ func ClosureOf(v ssa.Value) *ssa.Function {
 			return x.Fn.(*ssa.Function)
 		case *ssa.Function:
 			return x
+		case *ssa.Call:
+			// a converting helper: a one-block function that returns one of its parameters, converted or boxed
+			cal := x.Common().StaticCallee()
+			if cal == nil || len(cal.Blocks) != 1 || x.Common().IsInvoke() {
+				return nil
+			}
+			ret, ok := cal.Blocks[0].Instrs[len(cal.Blocks[0].Instrs)-1].(*ssa.Return)
+			if !ok || len(ret.Results) != 1 {
+				return nil
+			}
+			r := ret.Results[0]
+			for k := 0; k < 4; k++ {
+				switch y := r.(type) {
+				case *ssa.ChangeType:
+					r = y.X
+				case *ssa.MakeInterface:
+					r = y.X
+				case *ssa.ChangeInterface:
+					r = y.X
+				}
+			}
+			p, isParam := r.(*ssa.Parameter)
+			if !isParam {
+				return nil
+			}
+			v = nil
+			for idx, q := range cal.Params {
+				if q == p && idx < len(x.Common().Args) {
+					v = x.Common().Args[idx]
+				}
+			}
 		default:
 			return nil
 		}
